@@ -45,6 +45,17 @@ value. -/
 def withCM (enter body exit : Stmt) : Stmt :=
   .seq (.scope enter) (.tryFinally body (.scope exit))
 
+/-- the translator met a construct it does not follow somewhere in this skeleton -/
+def Stmt.hasUnknown : Stmt → Bool
+  | .unknown => true
+  | .seq a b => a.hasUnknown || b.hasUnknown
+  | .ite _ a b => a.hasUnknown || b.hasUnknown
+  | .loop _ b => b.hasUnknown
+  | .scope b => b.hasUnknown
+  | .tryFinally b f => b.hasUnknown || f.hasUnknown
+  | .tryExcept b h => b.hasUnknown || h.hasUnknown
+  | _ => false
+
 /-- sequence of a list of statements -/
 def seqs : List Stmt → Stmt
   | [] => .skip
